@@ -44,6 +44,12 @@ def run(ctx):
             if mu["fmt"] == "par2" and mu["field"] in ("recv.exp", "main.nrecv", "ifsc.npairs", "ids.extra", "ids.dup", "dup.recv"):
                 for d in ("intact", "one"):
                     cases.append({"muts": [mu], "valid": valid, "data": d, "big": True})
+        # a volume that does not repeat the main packet (legal) combined with every recovery-packet mutation
+        nomain = [mu for mu, valid in singles if mu["fmt"] == "par2" and mu["field"] == "remove.main" and mu["where"] == "volume"]
+        for mu, valid in singles:
+            if nomain and mu["fmt"] == "par2" and mu["field"].startswith("recv.") and mu["where"] in ("volume", "all"):
+                for d in ("intact", "one"):
+                    cases.append({"muts": [nomain[0], dict(mu, where="volume")], "valid": False, "data": d})
         for i, pr in enumerate(related):
             if ctx.thorough or i % 3 == ctx.seed % 3:       # quick: a third of the cross product, rotating with the seed
                 cases.append({"muts": pr, "valid": False, "data": "intact"})
